@@ -33,6 +33,9 @@ CLAIMED = {
  'C20': ('bounded exhaustive enumeration of ValueMap/Values qualifier pairs and probe values on the real code against an independent DSP0004 reference model',
          'All ValueMap arrays up to length 3 (4 in thorough) over a 24-atom entry alphabet x Values arrays of equal/shorter/longer size with duplicates x values_default x no ValueMap x 8 integer types x 5 element kinds, probed with every value of the 8-bit types (all 65536 values of 16-bit types on arrays <= 2 in thorough) and boundary sets otherwise; tovalues/tobinary/items are compared with mc/refmodels/valuemap.py, and only ModelError/ValueError may be raised.',
          'trusts mc/refmodels/valuemap.py; where DSP0004 is silent (overlapping entries, facing open ranges) any claiming entry or a rejection is accepted', '§5 C20'),
+ 'C16': ('stateless model checking of the real listener threads: exhaustive, preemption-bounded (iterative context bounding) depth-first exploration of schedules under a controlled cooperative scheduler, with state-signature pruning',
+         'pywbem/_listener.py is loaded unmodified with shimmed threading/queue/time; every queue/event/sleep/thread start/join operation, callback entry/exit and every access to the shared fields _ind_queue/_callback_thread is a scheduling point; main (start/stop/restart), 1-3 senders running the real request handler, the server thread and the callback thread are explored under every schedule with at most p preemptions per driver family (p=1, p=2 for the join-then-stop family; p=2/3 in thorough). Per execution: every acknowledged indication delivered exactly once to every callback in registration and sender order, refused ones never, stop() returns without raising, no thread or server left, restart works; deadlock detection; each violation schedule is replayed twice.',
+         'scheduling points are the synchronisation operations and the two shared fields (GIL-atomic attribute access assumed in between); the HTTP server is a transcription of socketserver serve_forever/shutdown/server_close; pruning assumes the state signature (thread program counters + simple locals + shared state) determines the future', '§5 C16'),
 }
 NOT_YET = 'check not built yet in this round (planned, see DESIGN.md §5); not claimed until it exists'
 
